@@ -81,12 +81,35 @@ def run(ctx: Ctx) -> None:
                                         # cancel is a continuation as far as the token rules go
                                         ev.append({"a": "cont", "w": wname, "id": pid, "ep": ep, "cur": tok(), "call": tok(),
                                                    "served": bool(r_["served"] or (cancel and r_["status"] == 200))})
+                # cross pairing: this method's OWN cursor with the call token another method's init minted (same identity):
+                # the endpoint must not run its state against call state / schemas its own init did not produce
+                for other in METHS:
+                    if other == meth:
+                        continue
+                    oi = warm.init(other, ident)
+                    ev.append({"a": "init", "w": "w1", "id": ident, "m": other})
+                    n_streams = sum(1 for e in ev if e["a"] == "init")
+                    otok = {"sid": n_streams, "ident": ident, "meth": other, "created": 0}
+                    for wname, wk in (("w2", cold),):
+                        for cancel in (False, True):
+                            n0 = len(H.HOOKS)
+                            r_ = wk.cont(meth, ident, cursors[0], oi["call"], cancel=cancel)
+                            hooks = H.HOOKS[n0:]
+                            ctx.case([m, "own-cursor+foreign-call", other, wname, cancel, ident],
+                                     sample={"endpoint": meth, "cursor_of": meth, "call_token_of": other, "worker": wname,
+                                             "status": r_["status"], "served": r_["served"], "hooks": hooks} if other == METHS[0] else None)
+                            sig = {"minted_by": m, "endpoint": meth, "call_token_of": other, "worker": "cold", "cancel": cancel}
+                            if r_["served"] or r_["status"] != 400 or hooks:
+                                ctx.violation("OwnInitOnly", sig, {"status": r_["status"], "served": r_["served"], "hooks": hooks,
+                                                                   "error": (r_["error"] or {}).get("message")})
+                            ev.append({"a": "cont", "w": wname, "id": ident, "ep": meth, "cur": tok(), "call": otok,
+                                       "served": bool(r_["served"])})
                 traces.append({"caps": {"w1": 8, "w2": 0}, "ev": ev})
                 metas.append({"minted_by": m, "ident": ident})
     finally:
         clock.restore()
     c = consts(10**6, False, methods='{"xa", "xb", "xc", "xu", "pd", "pe"}')
-    c["MaxStreams"] = 1
+    c["MaxStreams"] = 8
     vs = tracecheck.validate(ctx, wd, "HttpStreamTrace", traces, constants=c, name="HttpStreamTrace (cross-method presentations)")
     for v, meta, tr in zip(vs, metas, traces):
         for cl in v["bad"]:
